@@ -184,6 +184,18 @@ def run(tier):
                  "python_default": repr(v), "given_as": "GraphQLDefaultInput(value=...)" if style == "value" else "default_value=...",
                  "programmatic": True}, "probe", True)
     ck.count("default_value_probes", 2 * len(vals))
+    # ---- every Python representation of a default value, at every nesting (see gen_schema.representation_probes)
+    for key, s in G.representation_probes():
+        try:
+            if validate_schema(s):
+                ck.count("probe_invalid")
+                continue
+        except Exception:  # noqa: BLE001
+            ck.count("probe_invalid")
+            continue
+        one(s, key, {"relation": "print/build round trip", "mode": "default value representation probe",
+                     "schema": key, "programmatic": True}, "probe", True)
+        ck.count("representation_probes")
     # ---- generated schemas --------------------------------------------------------------
     n = 700 if quick else 6000
     for i in range(n):
